@@ -178,6 +178,9 @@ def run_solver(repo, kinds, solve_for=('tidal',), nondimensionalize=False, slice
             bv = [X.lift(b.get(i)) for i in range(n)]
             sol = cramer(M, bv, n)
             for i in range(n): b.set(i, sol[i])
+            # on exit LAPACK has replaced A by its L and U factors: a caller that solves again with the same matrix without refilling it solves another system
+            for i in range(n * n):
+                A.set(i, X.atom(f'LU factor {i} left in the matrix by zgesv call {state["zgesv"]}', 'complex'))
             ie = e.args[7] if len(e.args) > 7 else None
             tgt = fr.vars.get(ie.id) if isinstance(ie, ast.Name) else info       # a pointer variable evaluates to its target: fetch the reference itself
             if isinstance(tgt, Ref): tgt.frame.vars[tgt.name] = 0
